@@ -10,13 +10,17 @@
      11 from_substring through the KMP mirror model (Model/KMP.v) [syms,p,contains,must_be_suffix]
      13 from_substrings through the Aho-Corasick mirror model (Model/AhoCorasick.v)
         [syms,patterns in iteration order,contains,must_be_suffix]
+   op 14: [[syms, words of the language in any order, as_partial], impl?] -> from_finite_language through the mirror
+          model of the Mihov-Schulz construction (Model/FiniteLang.v):
+          [model result, judgement, names] where names = result [prefix that names state 0, state 1, ...] (the trap of
+          the complete form is the one state after them and has no prefix)
    op 12: [p] -> the KMP failure table of the mirror model, entries shifted by one (-1 -> 0), as a result
    op 20: [dfa] -> [valid, is_minimal]
    op 21: [dfa, k, code, args] -> first word of length <= k over the DFA's alphabet on which the
           DFA and the boolean predicate (code, args) of Spec/Preds.v differ, as [] / [w] *)
 From Coq Require Import List Arith NArith Bool.
 From AV Require Import Base.Util Base.ITree Spec.Lang Spec.FA Spec.Preds
-                       Model.Codec Model.Decide Model.D00 Model.Construct Model.KMP Model.AhoCorasick.
+                       Model.Codec Model.Decide Model.D00 Model.Construct Model.KMP Model.AhoCorasick Model.FiniteLang.
 Import ListNotations.
 
 Definition dec_words : itree -> option (list word) := dec_list dec_word.
@@ -137,6 +141,13 @@ Definition d15 (op : nat) (t : itree) : itree :=
       | None => bad_input
       end
     | _, _, _ => bad_input
+    end
+  | 14, L [L [ts; tl; ta]; ti] =>
+    match dec_nats ts, dec_words tl, dec_bool ta, dec_opt dec_dfa ti with
+    | Some sy, Some lang, Some ap, Some impl =>
+      let model := fl_dfa sy lang ap in
+      L [enc_res enc_dfa model; judge model impl; enc_res (enc_list enc_nats) (fl_state_names lang)]
+    | _, _, _, _ => bad_input
     end
   | _, L [tp; ti] =>
     match dec_ctor op tp, dec_opt dec_dfa ti with
